@@ -102,6 +102,19 @@ def handwritten():
     S.append(({}, [(REQ, b'GET /a HTTP/1.1\r\nHost: h\r\nX-A: 1\r\nX-B: '), (REQ, b'/' * 40000 + b'\r\n'), (REQ, b'zz'), (RES, ok), (RES, ok), (RES, ok), (RES, ok), (CLOSE, None)]))
     S.append(({}, [(REQ, b'POST /a HTTP/1.1\r\nHost: h\r\nTransfer-Encoding: chunked\r\n\r\n1\r\na\r\n0\r\nT: 1\r\nU: '), (REQ, b'/' * 40000 + b'\r\n'), (RES, ok), (RES, ok),
                    (RES, ok), (CLOSE, None)]))
+    # header-count limit (htp_config_set_number_headers_limit) reached by a field that is still pending: its line ends the piece, or it
+    # is folded; headers and trailers, both directions
+    hl = [b'GET /l HTTP/1.1\r\n', b'Host: h\r\n', b'X-A: 1\r\n', b'X-B: 2\r\n', b'X-C: 3\r\n', b'X-D:\r\n', b' 4\r\n', b'X-E: 5\r\n', b'\r\n']
+    rl = [b'HTTP/1.1 200 OK\r\n', b'A: 1\r\n', b'B: 2\r\n', b'C: 3\r\n', b'D: 4\r\n', b' 5\r\n', b'Content-Length: 0\r\n', b'\r\n']
+    for lim in (1, 2, 3, 4):
+        S.append(({'HDR_LIMIT': lim}, [(REQ, x) for x in hl] + [(RES, x) for x in rl] + [(CLOSE, None)]))
+        S.append(({'HDR_LIMIT': lim}, [(REQ, b''.join(hl))] + [(RES, b''.join(rl))] + [(CLOSE, None)]))
+        S.append(({'HDR_LIMIT': lim + 2}, [(REQ, b'POST /t HTTP/1.1\r\nHost: h\r\nTransfer-Encoding: chunked\r\n\r\n1\r\na\r\n0\r\n'), (REQ, b'T1: 1\r\n'), (REQ, b'T2: 2\r\n'), (REQ, b'T3:\r\n'),
+                                           (REQ, b' 3\r\n'), (REQ, b'T4: 4\r\n\r\n'), (RES, b'HTTP/1.1 200 OK\r\nTransfer-Encoding: chunked\r\n\r\n0\r\n'), (RES, b'T1: 1\r\n'),
+                                           (RES, b'T2: 2\r\n'), (RES, b'T3: 3\r\n'), (RES, b' x\r\n'), (RES, b'\r\n'), (CLOSE, None)]))
+    # blank lines / whitespace in front of the request line under the three settings of requestline_leading_whitespace_unwanted
+    for ws in (0, 1, 2, 3):
+        S.append(({'LEADING_WS': ws}, [(REQ, b'\r\n  \tGET /w HTTP/1.1\r\nHost: h\r\n\r\n'), (RES, ok2), (REQ, b' \x0bGET /w2 HTTP/1.0\r\n\r\n'), (RES, ok2), (CLOSE, None)]))
     return S
 
 
